@@ -183,6 +183,13 @@ def run(c):
             stress += 1
             rows.append({"e": "sign", "signer": "stress", "guid": g, "verifies": v or "none", "id": rid or "own", "hist": []})
     c.extra["stress_signatures"] = stress
+    # 4b. the signing helper under concurrent use with two keys
+    sg = rig.fn_table([{"kind": "sig_stress", "keys": [K["k1"], K["k2"]], "threads": 6, "iters": 20000 if not thorough else 300000}],
+                      "c10_sig", timeout=900)[0]
+    ref_ok = sg.get("reference") == [canon.mac(K["k1"], b"GET\n\nhost:h\n/x\na=1"), canon.mac(K["k2"], b"GET\n\nhost:h\n/x\na=1")]
+    rows.append({"e": "sigfn", "id": "sigfn", "guid": "-", "verifies": "-", "calls": sg.get("calls", 0),
+                 "mismatches": sg.get("mismatches", -1), "refOk": bool(ref_ok)})
+    c.extra["signer_function_calls"] = sg.get("calls")
     # 5. the verdict: KeyPairing on every authorization header observed
     remaining = rows
     from vlib import findings
@@ -193,6 +200,12 @@ def run(c):
         import re
         ids = re.findall(r'id \|-> "([^"]+)"', res.trace_text)
         bad = next((r for r in remaining if r.get("e") == "sign" and ids and r["id"] == ids[-1]), None)
+        if "SignerFunction" in why:
+            c.violation("compute_signature returned a MAC made under another key when called concurrently with two keys "
+                        "(%s of %s calls)" % (sg.get("mismatches"), sg.get("calls")),
+                        {"kind": "signing-helper-mixes-keys"}, {"sig_stress": sg})
+            remaining = [r for r in remaining if r.get("e") != "sigfn"]
+            continue
         if bad is None:
             raise util.ToolError("KeyPairTrace rejected the trace but the event could not be identified: %s" % why)
         signer = bad["signer"] if bad["signer"] != "stress" else "stress"
